@@ -95,6 +95,9 @@ func c01ErrCode(err error) []string {
 	case cmbbs.ErrInvalidPasswd2Size:
 		return errs(3)
 	}
+	if c01Refused(err) {
+		return errs(4)
+	}
 	return errs(99)
 }
 
@@ -108,6 +111,7 @@ func init() {
 	}
 	register("C01", &propDriver{
 		teardown: func() {
+			c01FullCleanup()
 			if env != nil {
 				env.close()
 			}
@@ -267,6 +271,8 @@ func init() {
 					return errs(1)
 				}
 				return ok()
+			case 10, 11, 12: // histories with refused writes (c01seq.go)
+				return c01History(getEnv, args)
 			}
 			return []string{"9"}
 		},
